@@ -20,17 +20,29 @@ Definition doe_ok (doe : Z) : bool :=
       (0 <=? yoe) && (yoe <=? 399) && (1 <=? m) && (m <=? 12) && (1 <=? d)
       && (d <=? days_in_month (yoe + month_carry m) m)
       && (doe_of_civil yoe m d =? doe)
+      && (if doe <=? 146036 then yoe + month_carry m <=? 399 else yoe + month_carry m =? 400)
   end.
-Definition all_doe : list Z := map Z.of_nat (seq 0 (Z.to_nat 146097)).
+Fixpoint check_range (n : nat) (z : Z) : bool :=
+  match n with
+  | O => true
+  | S k => doe_ok z && check_range k (z + 1)
+  end.
 
-Lemma doe_check : forallb doe_ok all_doe = true.
+Lemma doe_check : check_range (Z.to_nat 146097) 0 = true.
 Proof. vm_compute. reflexivity. Qed.
+
+Lemma check_range_sound n : forall s z,
+  check_range n s = true -> s <= z < s + Z.of_nat n -> doe_ok z = true.
+Proof.
+  induction n as [|n IH]; intros s z Hc Hz; [lia|].
+  cbn [check_range] in Hc. apply andb_true_iff in Hc as [H1 H2].
+  destruct (Z.eq_dec z s) as [->|Hne]; [exact H1|].
+  apply (IH (s + 1)); [exact H2|lia].
+Qed.
 
 Lemma doe_ok_all doe : 0 <= doe < 146097 -> doe_ok doe = true.
 Proof.
-  intros H. pose proof doe_check as C. rewrite forallb_forall in C. apply C.
-  unfold all_doe. apply in_map_iff. exists (Z.to_nat doe). split; [lia|].
-  apply in_seq. lia.
+  intros H. apply (check_range_sound _ 0 doe doe_check). rewrite Z2Nat.id; lia.
 Qed.
 
 Lemma is_leap_era a e : is_leap (a + e * 400) = is_leap a.
@@ -68,6 +80,31 @@ Proof.
     rewrite Hd. subst doe era. dm.
   - replace (yoe + era * 400 + month_carry m) with (yoe + month_carry m + era * 400) by ring.
     rewrite days_in_month_era. lia.
+Qed.
+
+(* years 0..9999 are exactly the timestamps 0000-01-01T00:00:00 .. 9999-12-31T23:59:59 *)
+Definition TS_MIN : Z := -62167219200.
+Definition TS_MAX : Z := 253402300799.
+
+Lemma year_bounds ts : TS_MIN <= ts <= TS_MAX -> 0 <= year_of_ts ts <= 9999.
+Proof.
+  unfold TS_MIN, TS_MAX, year_of_ts, civil_from_days. intros Hts.
+  set (z' := ts / 86400 + 719468). set (era := z' / 146097). set (doe := z' mod 146097).
+  assert (Hz : -60 <= z' <= 3652364) by (subst z'; dm).
+  assert (Hdoe : 0 <= doe < 146097) by (subst doe; apply Z.mod_pos_bound; lia).
+  assert (Hera : -1 <= era <= 24) by (subst era; dm).
+  assert (Hrel : z' = 146097 * era + doe) by (subst era doe; apply Z.div_mod; lia).
+  pose proof (doe_ok_all doe Hdoe) as Hok. unfold doe_ok in Hok.
+  destruct (civil_of_doe doe) as [[yoe m] d].
+  repeat (apply andb_true_iff in Hok as [Hok ?]).
+  fold (month_carry m). cbn [fst].
+  assert (Hy : 0 <= yoe <= 399) by lia.
+  assert (Hc : 0 <= month_carry m <= 1) by (unfold month_carry; destruct (m <=? 2); lia).
+  destruct (doe <=? 146036) eqn:E.
+  - apply Z.leb_le in E. assert (yoe + month_carry m <= 399) by lia.
+    assert (0 <= era) by lia. lia.
+  - apply Z.leb_gt in E. assert (yoe + month_carry m = 400) by lia.
+    assert (era <= 23) by lia. lia.
 Qed.
 
 (* ------------------------------------------------------------------ *)
@@ -347,10 +384,10 @@ Lemma parse_fract_nine n :
 Proof.
   intros Hn. unfold parse_fract.
   pose proof (digits_fixed_length 9 n []) as Hl.
-  destruct (digits_fixed 9 n []) as [|x r] eqn:E; [discriminate|].
-  rewrite N.eqb_refl, <- E, Hl.
-  rewrite (digits_fixed_val 9 n [] 0) by (unfold NANO in Hn; simpl; lia).
-  simpl. reflexivity.
+  assert (Hv : digits_val (digits_fixed 9 n []) 0 = digits_val [] (0 * 10 ^ Z.of_nat 9 + n)).
+  { apply digits_fixed_val. unfold NANO in Hn. simpl. lia. }
+  destruct (digits_fixed 9 n []) as [|x r]; [discriminate|].
+  rewrite N.eqb_refl, Hl, Hv. cbn [digits_val]. rewrite Z.mul_0_l, Z.add_0_l. reflexivity.
 Qed.
 
 Lemma parse_i32_offset sign hh mm :
@@ -381,7 +418,7 @@ Lemma nanos_identity secs frac9 :
   (secs + carry_of frac9) * NANO + frac9 mod NANO = secs * NANO + frac9.
 Proof.
   unfold carry_of, NANO. intros H. destruct (frac9 =? 1000000000) eqn:E.
-  - apply Z.eqb_eq in E. subst. reflexivity.
+  - apply Z.eqb_eq in E. subst. rewrite Z.mod_same by lia. lia.
   - apply Z.eqb_neq in E. rewrite Z.mod_small by lia. lia.
 Qed.
 
@@ -463,3 +500,35 @@ Example date_in_range_example :
   date_in_range (-2) 1000000000 3600 = true /\
   date_in_range 1 999999999 0 = true.
 Proof. vm_compute. auto. Qed.
+
+Lemma date_in_range_of_bounds secs frac9 offset :
+  0 <= frac9 <= NANO -> offset mod 60 = 0 -> Z.abs offset < 360000 ->
+  TS_MIN <= secs + carry_of frac9 + offset <= TS_MAX ->
+  date_in_range secs frac9 offset = true.
+Proof.
+  intros Hf Ho Ha Ht. pose proof (year_bounds _ Ht) as Hy.
+  unfold date_in_range. repeat (apply andb_true_iff; split).
+  - apply Z.leb_le; lia.
+  - apply Z.leb_le; lia.
+  - apply Z.eqb_eq; exact Ho.
+  - apply Z.ltb_lt; exact Ha.
+  - apply Z.leb_le; lia.
+  - apply Z.leb_le; lia.
+Qed.
+
+Lemma date_roundtrip_bounds secs frac9 offset :
+  0 <= frac9 <= NANO -> offset mod 60 = 0 -> Z.abs offset < 360000 ->
+  TS_MIN <= secs + carry_of frac9 + offset <= TS_MAX ->
+  exists s, format_highres_date secs frac9 offset = Some s /\
+            unpack_highres_date s = UOk (secs + carry_of frac9) (frac9 mod NANO, 9%nat) offset /\
+            (secs + carry_of frac9) * NANO + frac9 mod NANO = secs * NANO + frac9.
+Proof.
+  intros Hf Ho Ha Ht.
+  destruct (date_roundtrip secs frac9 offset (date_in_range_of_bounds _ _ _ Hf Ho Ha Ht)) as [s [H1 H2]].
+  exists s. split; [exact H1|]. split; [exact H2|]. apply nanos_identity. exact Hf.
+Qed.
+
+Example date_bounds_example :
+  exists s, format_highres_date (-2) 1000000000 (-12600) = Some s /\
+            unpack_highres_date s = UOk (-1) (0, 9%nat) (-12600).
+Proof. eexists. split; [vm_compute; reflexivity|]. vm_compute. reflexivity. Qed.
